@@ -247,9 +247,9 @@ pub fn gen_arg(ty: Ty, rng: &mut Rng) -> Arg {
     }
 }
 
-fn run_op(op: &Op, args: &[Arg]) -> Value {
+fn run_op(op: &Op, args: &[Arg], ignore_pre: bool) -> Value {
     let args_v: Vec<Value> = args.iter().map(|a| a.to_json()).collect();
-    if !(op.pre)(args) {
+    if !ignore_pre && !(op.pre)(args) {
         return json!({"op": op.name, "args": args_v, "outside_precondition": true, "agrees": true});
     }
     let a2 = args.to_vec();
@@ -302,7 +302,7 @@ fn main() {
                 eprintln!("arity mismatch");
                 std::process::exit(2);
             }
-            println!("{}", run_op(op, &args));
+            println!("{}", run_op(op, &args, d["ignore_pre"].as_bool().unwrap_or(false)));
         }
         Some("falsify") => {
             let op = find_op(&argv[2]);
@@ -314,7 +314,7 @@ fn main() {
             for _ in 0..iters {
                 let args: Vec<Arg> = op.sig.iter().map(|t| gen_arg(*t, &mut rng)).collect();
                 tried += 1;
-                let r = run_op(op, &args);
+                let r = run_op(op, &args, false);
                 if r.get("outside_precondition").is_none() {
                     in_pre += 1;
                 }
